@@ -32,7 +32,7 @@ RULE = ('operation histories over the clash universe; exhaustive to the stated d
         'seeded random histories; a case = one history; distinct by the history itself; non-trivial = at least one accepted '
         'mutation; states = distinct model states visited, transitions = calls executed and compared')
 ASSUMPTIONS = ['preconditions listed in level_note', 'CPython trusted; icontract trusted for evaluating the invariants']
-EXHAUSTIVE = {'quick': 'all database-level histories of length <= 3 over 61 operations; all table-level histories of length <= 3 over 33 operations',
+EXHAUSTIVE = {'quick': 'all database-level histories of length <= 3 over 61 operations; all table-level histories of length <= 3 over 39 operations',
               'thorough': 'as quick, plus table-level length 4 and BFS over distinct model states to depth 5 (database) / 6 (table)'}
 
 _contract_counts = {'db': 0, 'table': 0}
@@ -478,8 +478,8 @@ class TU:
 
 
 T_OPS = [('addc', x) for x in ('C1', 'C2', 'C3', 'X1')] + [('delc', x) for x in ('C1', 'C2', 'C3', 'CT', 'CF')] + \
-        [('delc_i', i) for i in (0, 1, -1, 5)] + [('addi', x) for x in ('I1', 'I1b', 'I2', 'I3', 'I4', 'I5', 'I6', 'X1')] + \
-        [('deli', x) for x in ('I1', 'I1b', 'I2', 'I3', 'I4')] + [('deli_i', i) for i in (0, 1, -1, 5)] + \
+        [('delc_i', i) for i in (0, 1, -1, 5, -2, -4, -9)] + [('addi', x) for x in ('I1', 'I1b', 'I2', 'I3', 'I4', 'I5', 'I6', 'X1')] + \
+        [('deli', x) for x in ('I1', 'I1b', 'I2', 'I3', 'I4')] + [('deli_i', i) for i in (0, 1, -1, 5, -2, -4, -9)] + \
         [('attach',), ('detach',), ('renc', 'C1')]
 
 
